@@ -136,6 +136,10 @@ TaskOut(P, t) ==            \* the value task t returns, or VX(id) of the except
                                THEN LET v == TaskOut(P, seg.ops[i].a) IN
                                     IF IsX(v) THEN [ok |-> FALSE, x |-> v, rs |-> rs]
                                     ELSE Ops(i + 1, Append(rs, v))
+                               ELSE IF seg.ops[i].o = "ival"     \* item.value(): the request is answered on the spot
+                               THEN LET v == ItemOut(P.kinds[seg.ops[i].a].flush, seg.ops[i].a, Fid(t, k, 30 + i - 1)) IN
+                                    IF IsX(v) THEN [ok |-> FALSE, x |-> v, rs |-> rs]
+                                    ELSE Ops(i + 1, Append(rs, v))
                                ELSE Ops(i + 1, rs)
             o == Ops(1, recvs)
         IN IF ~o.ok THEN o.x
@@ -153,7 +157,7 @@ NTasks(P) == Len(P.tasks)
 AllOps(P) == UNION {{<<t, k, i>> : i \in 1..Len(P.tasks[t].segs[k].ops)} : <<t, k>> \in
                      UNION {{<<t, k>> : k \in 1..Len(P.tasks[t].segs)} : t \in 1..NTasks(P)}}
 OpAt(P, x) == P.tasks[x[1]].segs[x[2]].ops[x[3]]
-YieldOnly(P) == \A x \in AllOps(P) : OpAt(P, x).o # "sync"
+YieldOnly(P) == \A x \in AllOps(P) : OpAt(P, x).o \notin {"sync", "ival"}
 HasCtxType(P, ty) == \E c \in 1..Len(P.ctxs) : P.ctxs[c].type = ty
 NoFaultyCtx(P) == \A c \in 1..Len(P.ctxs) : P.ctxs[c].faulty = "-"
 NoSpawnKind(P) == \A k \in 1..Len(P.kinds) : P.kinds[k].flush \notin {"spawn", "throw"}
